@@ -163,13 +163,27 @@ func runC04(c *kit.Ctx) {
 		if enclosingNamed(fn).Pkg == nil || enclosingNamed(fn).Pkg.Pkg.Path() != kit.Module {
 			continue
 		}
-		groups := map[ssa.Value][]*ssa.TypeAssert{}
+		// assertions on the same error: the same value, or repeated reads of the same field of the
+		// same struct value / object (a chain of `if _, ok := res.Error.(T); ok` reads it once per link)
+		groups := map[any][]*ssa.TypeAssert{}
+		operandKey := func(v ssa.Value) any {
+			r := kit.Root(v)
+			switch x := r.(type) {
+			case *ssa.Field:
+				return fmt.Sprintf("field %p.%d", kit.Root(x.X), x.Field)
+			case *ssa.UnOp:
+				if fa, ok := x.X.(*ssa.FieldAddr); ok {
+					return fmt.Sprintf("fieldaddr %p.%d", kit.Root(fa.X), fa.Field)
+				}
+			}
+			return r
+		}
 		kit.Instrs(fn, func(in ssa.Instruction) {
 			ta, ok := in.(*ssa.TypeAssert)
 			if !ok || !kit.IsErrorType(ta.X.Type()) || !inClassSet(ta.AssertedType) {
 				return
 			}
-			groups[kit.Root(ta.X)] = append(groups[kit.Root(ta.X)], ta)
+			groups[operandKey(ta.X)] = append(groups[operandKey(ta.X)], ta)
 		})
 		for operand, tas := range groups {
 			var have []string
